@@ -95,6 +95,10 @@ def cases(tier, seed):
     for perm in itertools.permutations([1e-4, 1e-1, 1e2]):
         for cv in ("kfold2", "blockkfold"):
             yield dict(kind="splinecv", dampings=list(perm), mind="default", cv=cv, delayed=False, scoring=None, client=True)
+    # ... and with an environment-driven client: at every submit / result the environment may let another pending search finish
+    # (deviation bound 1 in quick, 2 in thorough); six candidates, so that a bounded number of searches "in flight" matters
+    for perm in ([1e-4, 1e-1, 1e2, 1e-2, 1.0, 1e-3], [1e2, 1.0, 1e-1, 1e-2, 1e-3, 1e-4]):
+        yield dict(kind="splinecv_env", dampings=perm, cv="kfold2", bound=1 if tier == "quick" else 2)
     yield dict(kind="splinecv_sched", dampings=[1e-1, 1e-4], cv="kfold2", bound=0)
     yield dict(kind="splinecv_sched", dampings=[1e2, 1e-1], cv="kfold2", bound=0)
     yield dict(kind="splinecv_sched", dampings=[1e2, 1e-4], cv="kfold2", bound=1)
@@ -257,6 +261,49 @@ class FakeClient:
             f = todo[i]
             f.value = f.thunk()
             f.done = True
+
+
+class EnvFuture:
+    def __init__(self, client, thunk):
+        self.client, self.thunk, self.value, self._done = client, thunk, None, False
+        self.status = "pending"
+
+    def _run(self):
+        if not self._done:
+            self.value = self.thunk()
+            self._done = True
+            self.status = "finished"
+
+    def done(self):
+        return self._done
+
+    def result(self, timeout=None):  # noqa: U100
+        # before this future is waited for, the environment may let ONE other pending future finish first
+        others = [f for f in self.client.futures if not f._done and f is not self]
+        c = self.client.chooser.choose(1 + len(others), "result")
+        if c:
+            others[c - 1]._run()
+        self._run()
+        return self.value
+
+
+class EnvClient:
+    """Fake client whose futures complete when the environment (a schedules.Chooser) says so: at every submit() it may let one
+    of the still-pending futures finish (answer 0: none), so later-submitted work can be done while earlier work is still
+    running; done() reports truthfully.  Explored with a bound on the number of non-default answers."""
+
+    def __init__(self, chooser):
+        self.chooser = chooser
+        self.futures = []
+
+    def submit(self, fn, *args, **kwargs):
+        f = EnvFuture(self, lambda: fn(*args, **kwargs))
+        self.futures.append(f)
+        pending = [x for x in self.futures if not x._done]
+        c = self.chooser.choose(1 + len(pending), "submit")
+        if c:
+            pending[c - 1]._run()
+        return f
 
 
 def _fitted_attrs(est):
@@ -443,7 +490,7 @@ def run(case, rec):
         rec.check(not raised(again) and np.array_equal(again[1][0][2], test[0][2]), "not reproducible for a fixed random_state")
         rec.cls("tts/%s" % case["mode"])
         return
-    if kind in ("splinecv", "splinecv_sched"):
+    if kind in ("splinecv", "splinecv_sched", "splinecv_env"):
         e, n, d, w = dataset(0)
         data = d[0]
         dampings = case["dampings"]
@@ -493,6 +540,34 @@ def run(case, rec):
                 rec.check(np.allclose(np.asarray(scores_values, dtype=float), [ref[k] for k in order], rtol=0, atol=1e-10), "%s: scores_ %s != independently computed mean scores %s"
                           % (what, np.asarray(scores_values).tolist(), [ref[k] for k in order]))
 
+        if kind == "splinecv_env":
+            outcomes = set()
+            nrun = 0
+            bad = None
+
+            def run_env(chooser):
+                with warnings.catch_warnings():
+                    warnings.simplefilter("ignore")
+                    cvest = vd.SplineCV(dampings=dampings, mindists=mindists, cv=make_cv(cvkey), client=EnvClient(chooser))
+                cvest.fit((e, n), data)
+                return (cvest.mindist_, cvest.damping_, tuple(round(float(v), 10) for v in np.asarray(cvest.scores_, dtype=float)))
+
+            want_scores = tuple(round(ref[k], 10) for k in order)
+            for choices, obs, ch in S.explore_choices(run_env, case["bound"]):
+                nrun += 1
+                rec.trans()
+                outcomes.add(obs)
+                ok = (obs[0], obs[1]) in winners and len(obs[2]) == len(want_scores) and max(abs(a - b) for a, b in zip(obs[2], want_scores)) <= 1e-9
+                if not ok and bad is None:
+                    again = run_env(S.Chooser(choices))
+                    if again != obs:
+                        raise S.HarnessError("environment schedule %s does not replay identically" % (choices,))
+                    bad = (choices, obs, [lbl for _, _, lbl in ch.trace])
+            rec.count("client_environment_schedules", nrun)
+            rec.check(bad is None, "SplineCV(client) under environment answers %s (at %s): selected %s with scores %s; independently computed scores %s, best %s"
+                      % (bad[0] if bad else "", bad[2] if bad else "", bad[1][:2] if bad else "", bad[1][2] if bad else "", want_scores, sorted(winners)))
+            rec.check(len(outcomes) == 1, "SplineCV(client) result depends on when the futures complete: %d distinct outcomes" % len(outcomes))
+            return
         if kind == "splinecv" and case.get("client"):
             for order_ in itertools.permutations(range(len(order))):
                 with warnings.catch_warnings():
